@@ -53,6 +53,17 @@ func genPos(w *bufio.Writer, tier string, r *rng) {
 			}
 		}
 	})
+	manyLines(tier, func(s string, starts []int) {
+		for i, st := range starts {
+			fmt.Fprintf(w, "POS %s %d %d\n", hx(s), st, st)
+			if i+1 < len(starts) {
+				fmt.Fprintf(w, "POS %s %d %d\n", hx(s), st, starts[i+1])
+			}
+			if st > 0 {
+				fmt.Fprintf(w, "POS %s %d %d\n", hx(s), st-1, st)
+			}
+		}
+	})
 	texts := corpusStrings()
 	for i := 0; i < nrand; i++ {
 		var s string
